@@ -434,10 +434,13 @@ def run(ctx):
     ctx.rule("R-6.2", "restore provenance of the scheduler stream (cross-reference to C07)", floor=1)
     ctx.rule("R-6.3", "no nondeterministic source reaches restart.toml or the data file (taint analysis)", floor=10)
     ctx.rule("R-6.4", "per-run state is per instance", floor=3)
+    ctx.rule("R-6.5", "the restart file is written from the final state of the step: nothing it serialises is modified after write_toml in treat_output", floor=1)
     ctx.attempt(r61, ctx)
     ctx.attempt(r62, ctx)
     ctx.attempt(r63, ctx)
     ctx.attempt(r64, ctx)
+    from .shared import commit_is_final
+    ctx.attempt(commit_is_final, ctx, "R-6.5")
 
 
 VARIANTS = [
@@ -454,6 +457,7 @@ VARIANTS = [
     B("c06-start-time-in-config", REPEX, '        self.config["current"]["active"] = self.live_paths()', '        self.config["current"]["active"] = self.live_paths()\n        self.config["output"]["started"] = self.start_time', "R-6.3"),
     B("c06-traj-data-shared", REPEX, "        # per-run path data: not shared with other REPEX_state instances\n        self.traj_data = {}\n", "", "R-6.4", control=True, why="pre-fix D12"),
     B("c06-ensembles-conditionally-rebound", SETUP, "    # setup ensembles\n    state.initiate_ensembles()\n", "    # setup ensembles\n    if not state.ensembles:\n        state.initiate_ensembles()\n", "R-6.4"),
+    B("c06-commit-before-sort", REPEX, "        self.sort_trajstate()\n        self.config[\"current\"][\"traj_num\"] = traj_num\n", "        self.config[\"current\"][\"traj_num\"] = traj_num\n        self.write_toml()\n        self.sort_trajstate()\n", "R-6.5", control=True, why="seeded C06_a"),
     K("c06-keep-frac-key-local", REPEX, "        for key in sorted(self.traj_data.keys()):\n            fracs = [str(i) for i in self.traj_data[key][\"frac\"]]\n            self.config[\"current\"][\"frac\"][str(key)] = fracs", "        for key in sorted(self.traj_data.keys()):\n            fracs = [str(i) for i in self.traj_data[key][\"frac\"]]\n            current = self.config[\"current\"]\n            current[\"frac\"][str(key)] = fracs"),
     K("c06-keep-step-count-in-log", REPEX, '        self.cworker = md_items["pin"]\n', '        self.cworker = md_items["pin"]\n        logger.debug("step took %s", md_items["md_end"] - md_items["md_start"])\n'),
     K("c06-keep-traj-data-dict-call", REPEX, "        self.traj_data = {}\n", "        self.traj_data = dict()\n"),
